@@ -62,6 +62,11 @@ fn seeds() -> Vec<SeedMsg> {
     let user = V::M(vec![(V::t("id"), V::B(vec![1, 2, 3])), (V::t("icon"), V::t("i")), (V::t("name"), V::t("n")), (V::t("displayName"), V::t("d"))]);
     let rp = V::M(vec![(V::t("id"), V::t("example.org")), (V::t("name"), V::t("n")), (V::t("icon"), V::t("i"))]);
     let rp_url = V::M(vec![(V::t("id"), V::t("example.org")), (V::t("url"), V::t("u")), (V::t("name"), V::t("n"))]);
+    // the same contexts with every map's members in reverse order (names before ids, ...)
+    let rev: Vec<SeedMsg> = v.iter().map(|s| SeedMsg { label: format!("{} (members reversed)", s.label), target: s.target.clone(), wire: reverse_maps(&s.wire) }).collect();
+    v.extend(rev);
+    v.push(alone_seed("user", reverse_maps(&user)));
+    v.last_mut().unwrap().label = "alone:user (members reversed)".into();
     v.push(alone_seed("user", user));
     v.push(alone_seed("rp", rp));
     v.push(SeedMsg { label: "alone:rp(url)".into(), target: Target::Alone("rp"), wire: rp_url });
@@ -157,6 +162,48 @@ pub fn run(ctx: &'static Ctx) {
             l.fail(ctx, idx, v, || case_json(&seed.target, &wire, json!({"member": slot.name, "prefix": 50 + d[2], "window": swr[d[1] as usize].escape_unicode().to_string()})));
         }
     });
+
+    // (1c) blank, invisible and punctuation characters at the very end, the very start and at every
+    // position around the cut, for every total length around the capacity (a name that exactly
+    // fits must come back unchanged, whatever its last character is)
+    {
+        let marks = [' ', '\t', '\n', '\u{a0}', '\u{2003}', '\u{3000}', '\u{200b}', '\u{200d}', '\u{feff}', '.', '/', '\u{0}', '\u{7f}', '\u{85}'];
+        let mut texts: Vec<String> = Vec::new();
+        for c in marks {
+            let cl = c.len_utf8();
+            for total in 56..=72usize {
+                texts.push(format!("{}{}", "x".repeat(total - cl), c));
+                texts.push(format!("{}{}", c, "x".repeat(total - cl)));
+                texts.push(format!("{}{}{}", c, "x".repeat(total - 2 * cl), c));
+                for p in 58..=66usize {
+                    if p + cl <= total {
+                        texts.push(format!("{}{}{}", "x".repeat(p), c, "y".repeat(total - p - cl)));
+                        if p + 2 * cl <= total {
+                            texts.push(format!("{}{}{}{}", "x".repeat(p), c, c, "y".repeat(total - p - 2 * cl)));
+                        }
+                    }
+                }
+            }
+        }
+        texts.sort();
+        texts.dedup();
+        let slots_all: Vec<&Slot> = name_slots.iter().collect();
+        let (tr, n) = (&texts, slots_all.len() as u64);
+        sweep(ctx, "names: blank and invisible characters at the ends and around the cut", n * texts.len() as u64, "14 characters (space, tab, line feed, NBSP, EM SPACE, IDEOGRAPHIC SPACE, ZWSP, ZWJ, BOM, full stop, slash, NUL, DEL, NEL) at the end, at the start, at both ends and at every offset 58..=66 (single and doubled) of names of 56..=72 bytes, every name member", move |idx, l| {
+            let slot = slots_all[(idx % n) as usize];
+            let s = &tr[(idx / n) as usize];
+            let seed = &sr[slot.seed];
+            let wire = treewalk::replaced(&seed.wire, &slot.path, V::t(s));
+            if s.len() > 64 {
+                l.nontrivial += 1;
+            }
+            l.bump(if s.len() > 64 { "name longer than 64 bytes" } else { "name fits" });
+            let v = compare(P, &seed.target, &wire);
+            if !v.ok {
+                l.fail(ctx, idx, v, || case_json(&seed.target, &wire, json!({"member": slot.name, "text": s.escape_unicode().to_string()})));
+            }
+        });
+    }
 
     // (2) every total length 0..=300 of a single repeated width, all name members
     let all_names: Vec<&Slot> = name_slots.iter().collect();
